@@ -13,6 +13,10 @@ CLAIMED = {
    technique="table/vocabulary agreement over go/types constants and literals + type flow into interface slots (SSA) + polynomial folding of the unit conversion + guarded-by on the defaulting skeleton and on every parent-style dereference",
    text="Decides structural necessary conditions of CSS defaulting: the six per-property tables agree with each other and with CSS 2.1 Appendix F (inherited flags, initial keywords), every value that can enter a style slot has the slot's type, the unit table holds the fixed CSS ratios, length_ multiplies each relative unit by the right font size, the inherit/initial skeleton of cascadeValue, and the root never dereferences its missing parent. Pending var() paths, caching order and font metrics are not decided.",
    ref="4 C04"),
+ "C05": dict(
+   technique="vocabulary and dispatch-table agreement between parser, matchers and printers on the AST with go/types constants + specificity constants vs the Selectors-4 table + case-folding provenance and i-flag plumbing on SSA + empty-value scenario reachability + escaping of quoted interpolations + division guards",
+   text="Decides necessary conditions of selector matching/weighing: no parser output can reach a panicking default of a Match dispatcher; specificity constants and the max rule of :is/:not/:has are those of Selectors 4; combinators, attribute operators and structural pseudo-class names dispatch to the specified relation with the specified (a,b,last,ofType); names are ASCII-lowercased and the i flag reaches every comparison; substring/word operators cannot match with an empty value; printed selectors escape quoted values and use names the parser accepts. The matching algorithms themselves (sibling walks, an+b arithmetic, :empty, :lang) are not decided.",
+   ref="4 C05"),
  "C17": dict(
    technique="polynomial value numbering of the matrix routines over SSA (exact rationals, uninterpreted trig) compared with specification matrices + AST/SSA checks of vocabulary, arity, argument order, composition order and origin conjugation",
    text="Decides that each routine of package matrix, as a polynomial in its inputs, equals the specification matrix (and in-place operations equal right multiplication by the constructor), that SVG transform.applyTo right-multiplies by the specified matrix per kind with degrees converted to radians, and that the CSS/SVG plumbing (names, arities, argument positions, left-to-right composition, transform-origin conjugation, angle-unit table) is as specified. Float rounding is outside the abstraction; the matrix finally handed to the backend is not traced further than getMatrix/applyTo.",
